@@ -69,14 +69,14 @@ Definition f32_to_f64 (x : binary32) : binary64 :=
 (* float32 -> float16 bit pattern (astype(np.float16)) *)
 Definition Hpe16 : BinarySingleNaN.Prec_lt_emax 11 16 := eq_refl.
 Definition Hp16 : Prec_gt_0 11 := eq_refl.
-Definition f32_to_f16_bits (x : binary32) : Z :=
-  bits_of_binary_float 10 5
-    (match x with
-     | B754_zero _ _ s => B754_zero 11 16 s
-     | B754_infinity _ _ s => B754_infinity 11 16 s
-     | B754_nan _ _ s _ _ => B754_nan 11 16 s 512%positive eq_refl
-     | B754_finite _ _ s m e _ => binary_normalize 11 16 Hp16 Hpe16 NE (cond_Zopp s (Zpos m)) e s
-     end).
+Definition f32_to_f16 (x : binary32) : binary_float 11 16 :=
+  match x with
+  | B754_zero _ _ s => B754_zero 11 16 s
+  | B754_infinity _ _ s => B754_infinity 11 16 s
+  | B754_nan _ _ s _ _ => B754_nan 11 16 s 512%positive eq_refl
+  | B754_finite _ _ s m e _ => binary_normalize 11 16 Hp16 Hpe16 NE (cond_Zopp s (Zpos m)) e s
+  end.
+Definition f32_to_f16_bits (x : binary32) : Z := bits_of_binary_float 10 5 (f32_to_f16 x).
 
 Section Ops.
   Variable O : fops.
